@@ -456,6 +456,7 @@ def judge(ctx, tree, inputs, label):
             x = inputs[i]
             ctx.report(sig, "%s: %s on input %s: %s" % (rej[i], sig, x.get("name"), (x.get("text") or x.get("path", ""))[:160].replace("\n", "\\n")),
                        case=dict(kind="input", name=x.get("name"), text=x.get("text"), path=x.get("path"), flags=x.get("flags", []),
+                                 source=None if "text" in x or x.get("cls") in ("own", "test") else open(x["path"], errors="replace").read()[:200000],
                                  must=x["must"], cls=rej[i], obs={k: x["obs"][k] for k in OBS_KEYS + ("first", "msg", "aserr")}, detail=detail[-1200:]))
         for i, detail in bysig[sig][3:]:
             ctx.report(sig, "", case=dict(kind="input"))
@@ -519,10 +520,15 @@ def replay(ctx, path):
     c = c.get("case") or c
     tree = ctx.build()
     x = dict(name=c.get("name"), must=c.get("must", "any"), cls="replay", flags=c.get("flags") or [])
+    name = c.get("name") or ""
     if c.get("text") is not None:
         x["text"] = c["text"]
+    elif name.startswith(("own/", "test/")):          # a file of the tree under test: take it from the current tree
+        x["path"] = os.path.join(tree, name[4:] if name.startswith("own/") else name)
+        x["flags"] = ["-I" + tree + "/test", "-I" + tree, "-I" + tree + "/include"]
     else:
-        x["path"] = c["path"]
+        x["text"] = c.get("source") or open(c["path"]).read()
+        x["flags"] = ["-I" + tree + "/include"]
     judge(ctx, tree, [x], "replay")
     ctx.cov["traces_validated_against_impl"] += 1
     return ctx.finish(rule="replay of one recorded case")
